@@ -18,6 +18,29 @@ P = {
             "not a proof for all depths.",
             "trusted: vpmon/gen/terms.py precedence table + printer, vpmon/ref/decode.py",
             "DESIGN.md 2/C05"),
+    "C10": ("contract on ODataParser.parse (M-parse) + outcome/determinism monitor + "
+            "sys.monitoring step-bound monitor over exhaustive atom sequences, mutations, "
+            "Unicode and 64 KB repetitive inputs",
+            "Exploration by runtime monitoring: every string of <=3 (quick) / <=4 (thorough) "
+            "lexical atoms exhaustively, token-level mutations of valid filters, random Unicode "
+            "and long repetitive inputs up to 64 KB are parsed by the real lexer/parser on a "
+            "fresh and on a long-lived instance pair; monitors: result is an AST node or the "
+            "exception is an ODataException subclass, both instance pairs agree, grammar steps "
+            "<= 40 x tokens + 100 (bounded progress instead of 'terminates'). Held on the "
+            "strings produced, not on all strings.",
+            "trusted: step accounting via sys.monitoring PY_START in odata_query/grammar.py; "
+            "wall-clock watchdog firing = inconclusive",
+            "DESIGN.md 2/C10"),
+    "C11": ("monitor on ODataParser._function_call (M-call) + reference arity table over the "
+            "exhaustive (name x argument count x context) matrix",
+            "Exploration by runtime monitoring, exhaustive over the stated finite matrix: 33 "
+            "built-ins + ~300 near-miss names x 0..5 arguments x 4 contexts, custom namespaces "
+            "with 0..5 positional / 1..5 named parameters; the accept/raise decision, exception "
+            "class and fields, and argument order are compared with a table written from the "
+            "specification; the M-call hook confirms the real decision function saw exactly "
+            "the (name, count) written.",
+            "trusted: vpmon/ref/functable.py (arity table from the OData 4.01 spec)",
+            "DESIGN.md 2/C11"),
 }
 
 NOT_BUILT_REASON = "check not built yet in this round (design in DESIGN.md section 2); not claimed"
